@@ -144,7 +144,7 @@ def main(argv=None):
     open_ = [o for o in obligations.values() if o['status'] == 'open']
     discharged = [o for o in obligations.values() if o['status'] == 'discharged']
     # only contract-level names are stable across harmless refactors (safety/loop names quote source text / ordinals)
-    stable = lambda n: any(f'/{k}[' in n for k in ('ensures', 'ensures.inv', 'raises', 'yield.ensures')) or n.startswith('lemma:')
+    stable = lambda n: (any(f'/{k}[' in n for k in ('ensures', 'ensures.inv', 'raises', 'yield.ensures')) and '@fault[' not in n and '/crash[' not in n) or n.startswith('lemma:')
     missing = sorted(n for n in base_names - set(obligations) if stable(n)) if not unsupported else []
     violations, known_hits, replays = [], [], []
     os.makedirs(os.path.join(HERE, 'out', 'replay'), exist_ok=True)
